@@ -192,9 +192,27 @@ func cmdVerify(args []string) int {
 			}
 		}
 	}
+	// the assigns clause of every verified contract is an obligation too (provenance back end)
+	{
+		var fa *frameAnalysis
+		for _, k := range keys {
+			c := eng.cs.ByKey[k]
+			if !c.HasAssigns || c.Trusted != "" || (onlyRe != nil && !onlyRe.MatchString(k)) {
+				continue
+			}
+			fn := eng.findFunction(k)
+			if fn == nil || len(fn.Blocks) == 0 {
+				continue
+			}
+			if fa == nil {
+				fa, _ = newFrameAnalysis(eng)
+			}
+			res.effects = append(res.effects, checkAssigns(eng, fa, fn, c)...)
+		}
+	}
 	// effect / frame obligations (C10, C11)
 	if cfg.Effects != nil {
-		res.effects = runEffects(eng, cfg.Effects, *prop)
+		res.effects = append(res.effects, runEffects(eng, cfg.Effects, *prop)...)
 	}
 	genT := time.Since(start)
 	// discharge
